@@ -7,6 +7,7 @@
 
 pub mod rec;
 pub mod rng;
+pub mod shapes;
 pub mod targets;
 pub mod util;
 
